@@ -128,6 +128,7 @@ type idGroup struct {
 type fixtures struct {
 	groups    []idGroup
 	sIDs      []*age.ScryptIdentity
+	sPass     []string
 	streamKey []byte
 
 	encEdPub, encRSAPub   ssh.PublicKey
@@ -180,6 +181,7 @@ func fix() *fixtures {
 		passes := append([]string{keys.P("S1").Pass}, f.cctvPass...)
 		for _, p := range passes {
 			f.sIDs = append(f.sIDs, keys.ScryptIdentity(p, maxWF))
+			f.sPass = append(f.sPass, p)
 		}
 		f.encEdPEM, f.encRSAPEM = c14Data("enc1_ed"), c14Data("enc1_rsa")
 		f.encEdLine = strings.TrimSpace(string(c14Data("enc1_ed.pub")))
@@ -213,6 +215,8 @@ func fix() *fixtures {
 			idGroup{name: "encE", mk: encID(f.encEdPub, f.encEdPEM)},
 			idGroup{name: "encR", mk: encID(f.encRSAPub, f.encRSAPEM)},
 		)
+		// a third-party Identity: hands back whatever bytes the stanza carries
+		f.groups = append(f.groups, idGroup{name: "stub", mk: fixed(stubIdentity{})})
 		// everything together, native identities first, as a caller holding a
 		// mixed key ring would pass them
 		all := append([]age.Identity{}, xs...)
@@ -374,44 +378,71 @@ func runDecrypt(data []byte, armored bool, o *obs) error {
 		}
 	}
 	for _, g := range f.groups {
-		var src io.Reader = bytes.NewReader(data)
-		var spy *errSpy
-		if armored {
-			spy = &errSpy{r: armor.NewReader(src)}
-			src = spy
-		}
-		rd, err := age.Decrypt(src, g.mk()...)
-		if spy != nil && spy.err != nil && !isArmorErr(spy.err) {
-			return violationf("armor-failure-not-typed:reader", "armor reader failed with %T (%v), not *armor.Error", spy.err, spy.err)
-		}
+		res, err := decryptWith(data, armored, g)
 		if err != nil {
-			if rd != nil {
-				return violationf("decrypt-error-with-reader", "Decrypt(identities %s) returned error %q together with a non-nil reader %T", g.name, err, rd)
-			}
-			if spy != nil && spy.err != nil && !isArmorErr(err) {
-				return violationf("armor-failure-not-typed:decrypt",
-					"the armor layer failed (%v) during Decrypt(identities %s) but the error returned does not carry *armor.Error: %T %q", spy.err, g.name, err, err)
-			}
+			return err
+		}
+		switch {
+		case res.err != nil:
 			if g.name == "all" {
-				o.set("rejected: " + errClass(err))
+				o.set("rejected: " + errClass(res.err))
 			}
-			continue
-		}
-		if rd == nil {
-			return violationf("decrypt-nil-reader", "Decrypt(identities %s) returned neither a reader nor an error", g.name)
-		}
-		_, rerr := io.Copy(io.Discard, rd)
-		if rerr != nil && spy != nil && spy.err != nil && !isArmorErr(rerr) {
-			return violationf("armor-failure-not-typed:payload",
-				"the armor layer failed (%v) while reading the payload (identities %s) but the error returned does not carry *armor.Error: %T %q", spy.err, g.name, rerr, rerr)
-		}
-		if rerr != nil {
-			o.force("header accepted, payload rejected: " + errClass(rerr))
-		} else {
+		case res.readErr != nil:
+			o.force("header accepted, payload rejected: " + errClass(res.readErr))
+		default:
 			o.force("decrypted")
 		}
 	}
 	return nil
+}
+
+// decResult is what one age.Decrypt + read-to-the-end observed.
+type decResult struct {
+	err     error // from Decrypt
+	readErr error // from reading the plaintext (nil: clean end)
+	pastMAC bool  // the header MAC was accepted (Decrypt went on to the nonce)
+	n       int64 // plaintext bytes released
+}
+
+// decryptWith runs age.Decrypt with one identity group and applies the
+// self-checking part of the property to that single call. The returned error
+// is a property violation.
+func decryptWith(data []byte, armored bool, g idGroup) (decResult, error) {
+	var res decResult
+	var src io.Reader = bytes.NewReader(data)
+	var spy *errSpy
+	if armored {
+		spy = &errSpy{r: armor.NewReader(src)}
+		src = spy
+	}
+	rd, err := age.Decrypt(src, g.mk()...)
+	res.err = err
+	if spy != nil && spy.err != nil && !isArmorErr(spy.err) {
+		return res, violationf("armor-failure-not-typed:reader", "armor reader failed with %T (%v), not *armor.Error", spy.err, spy.err)
+	}
+	if err != nil {
+		if rd != nil {
+			return res, violationf("decrypt-error-with-reader", "Decrypt(identities %s) returned error %q together with a non-nil reader %T", g.name, err, rd)
+		}
+		if spy != nil && spy.err != nil && !isArmorErr(err) {
+			return res, violationf("armor-failure-not-typed:decrypt",
+				"the armor layer failed (%v) during Decrypt(identities %s) but the error returned does not carry *armor.Error: %T %q", spy.err, g.name, err, err)
+		}
+		// the only failure Decrypt reports after it accepted the MAC
+		res.pastMAC = strings.HasPrefix(err.Error(), "failed to read nonce")
+		return res, nil
+	}
+	res.pastMAC = true
+	if rd == nil {
+		return res, violationf("decrypt-nil-reader", "Decrypt(identities %s) returned neither a reader nor an error", g.name)
+	}
+	n, rerr := io.Copy(io.Discard, rd)
+	res.n, res.readErr = n, rerr
+	if rerr != nil && spy != nil && spy.err != nil && !isArmorErr(rerr) {
+		return res, violationf("armor-failure-not-typed:payload",
+			"the armor layer failed (%v) while reading the payload (identities %s) but the error returned does not carry *armor.Error: %T %q", spy.err, g.name, rerr, rerr)
+	}
+	return res, nil
 }
 
 // ---------------------------------------------------------------------------
@@ -1131,8 +1162,11 @@ func runUnwrapStanzas(data []byte, o *obs) error {
 			key, err := id.Unwrap(copyStanzas(stanzas))
 			if err == nil {
 				opened++
-				if key == nil {
-					return violationf("unwrap-nil-key", "%T.Unwrap returned neither a file key nor an error for %s", id, describeStanzas(stanzas))
+				// (nil, nil) happens for a validly sealed EMPTY file key (the AEAD
+				// opens to a nil slice); Decrypt treats it as "no match". It is a
+				// value, not a panic: observed, not alarmed on.
+				if key == nil && o != nil {
+					o.skipped = "unwrap-returned-nil-key-and-nil-error"
 				}
 			} else if !errors.Is(err, age.ErrIncorrectIdentity) {
 				last = err
@@ -1188,6 +1222,7 @@ var targets = []*target{
 	{name: "PluginParseRecipient", fn: targetPluginParseRecipient, run: runPluginRecipient, grammar: "bech32", fuzzExecs: execsFast, quickN: 20000},
 	{name: "PluginParseIdentity", fn: targetPluginParseIdentity, run: runPluginIdentity, grammar: "bech32", fuzzExecs: execsFast, quickN: 20000},
 	{name: "PluginIdentityWithoutData", fn: targetPluginIdentityWithoutData, run: runPluginWithoutData, grammar: "name", fuzzExecs: execsFast, quickN: 20000},
+	{name: "DecryptKeyed", fn: targetDecryptKeyed, run: runDecryptKeyed, grammar: "keyed", fuzzExecs: execsDecrypt, quickN: 20000},
 	{name: "UnwrapStanzas", fn: targetUnwrapStanzas, run: runUnwrapStanzas, grammar: "stanzas", fuzzExecs: execsMedium, quickN: 20000},
 }
 
